@@ -62,7 +62,7 @@ def valOk (v : Val) : Verdict :=
   | .none => .viol "val/repr" "result is 'none'"
   | _ => .ok ""
 
-def checkVal (op : String) (args res : List String) : Verdict :=
+def checkValCore (op : String) (args res : List String) : Verdict :=
   let cap := 7
   match op, args, res with
   | "cmp", [a, b], [c] =>
@@ -238,5 +238,10 @@ def checkVal (op : String) (args res : List String) : Verdict :=
         else .ok "val/hash/different"
     | _, _, _, _ => .skip "parse"
   | _, _, _ => .skip s!"unknown val op {op}"
+
+def checkVal (op : String) (args res : List String) : Verdict :=
+  match operandsOk (args.filterMap (fun a => if a.startsWith "Va:" then some (a.drop 3).toString else none)) with
+  | some msg => .viol "state/operand-repr" msg
+  | none => checkValCore op args res
 
 end LP.Driver
